@@ -310,9 +310,6 @@ func c19c(c *Ctx) {
 		} else {
 			c.Bad(inst, "cmd/skylight/skylight.go", fmt.Sprintf("served with {%s}, the layout prescribes {%s}", g, w))
 		}
-		if h["Access-Control-Allow-Origin"] != "*" {
-			c.Bad(inst+" CORS", "cmd/skylight/skylight.go", "the route does not allow cross-origin monitoring clients")
-		}
 	}
 	// the tile level is parsed from the request path with the log's parser (falling back to the mirror's)
 	m := c.P.Fn("skylight.main")
